@@ -1136,6 +1136,7 @@ type printer struct {
 	hasUF bool
 	hasA  bool
 	apps  map[string]bool
+	fbv   map[*Term]map[*Term]bool
 }
 
 func (p *printer) count(t *Term, inQ bool) {
@@ -1176,21 +1177,62 @@ func (p *printer) count(t *Term, inQ bool) {
 	}
 }
 
+// hasBound: t mentions a quantified variable that is not bound inside t itself
+// (such a term cannot be hoisted into a top-level define-fun; a closed
+// quantified formula can).
 func (p *printer) hasBound(t *Term, memo map[*Term]bool) bool {
 	if v, ok := memo[t]; ok {
 		return v
 	}
-	r := false
-	if t.Op == "var" && p.bound[t] {
-		r = true
+	if p.fbv == nil {
+		p.fbv = map[*Term]map[*Term]bool{}
 	}
-	for _, a := range t.Args {
-		if p.hasBound(a, memo) {
-			r = true
-		}
-	}
+	r := len(p.freeBound(t)) > 0
 	memo[t] = r
 	return r
+}
+
+func (p *printer) freeBound(t *Term) map[*Term]bool {
+	if v, ok := p.fbv[t]; ok {
+		return v
+	}
+	var out map[*Term]bool
+	if t.Op == "var" && p.bound[t] {
+		out = map[*Term]bool{t: true}
+	}
+	add := func(m map[*Term]bool) {
+		if len(m) == 0 {
+			return
+		}
+		if out == nil {
+			out = map[*Term]bool{}
+		}
+		for k := range m {
+			out[k] = true
+		}
+	}
+	for _, a := range t.Args {
+		add(p.freeBound(a))
+	}
+	if t.Op == "forall" || t.Op == "exists" {
+		for _, pp := range t.Pats {
+			for _, x := range pp {
+				add(p.freeBound(x))
+			}
+		}
+		if len(out) > 0 {
+			cp := map[*Term]bool{}
+			for k := range out {
+				cp[k] = true
+			}
+			for _, v := range t.Bnd {
+				delete(cp, v)
+			}
+			out = cp
+		}
+	}
+	p.fbv[t] = out
+	return out
 }
 
 func (p *printer) str(t *Term, memo map[*Term]bool) string {
@@ -1198,7 +1240,7 @@ func (p *printer) str(t *Term, memo map[*Term]bool) string {
 		return n
 	}
 	s := p.raw(t, memo)
-	if len(t.Args) > 0 && p.refs[t] > 1 && !p.hasBound(t, memo) && t.Op != "forall" && t.Op != "exists" {
+	if len(t.Args) > 0 && p.refs[t] > 1 && !p.hasBound(t, memo) {
 		n := fmt.Sprintf("n!%d", t.id)
 		p.defs = append(p.defs, fmt.Sprintf("(define-fun %s () %s %s)", n, t.Sort.str, s))
 		p.names[t] = n
